@@ -70,6 +70,7 @@ package prunner
 //@   lockmode R
 //@   requires [ri] RIbase(r) && RIjobs(r)
 //@   ensures  [C15.running] res <==> exists k :: 0 <= k && k < len(r.jobsByPipeline[pipeline]) && jobRunning(r.jobsByPipeline[pipeline][k])
+//@   ensures  [C15.runningP] res <==> pipeRunning(r, pipeline)
 //@   modifies nothing
 //@   loop 1 invariant [none] 0 <= $i + 1 && $i + 1 <= len(r.jobsByPipeline[pipeline]) && forall k :: 0 <= k && k <= $i ==> !jobRunning(r.jobsByPipeline[pipeline][k])
 
@@ -347,11 +348,17 @@ package prunner
 //@   ensures  [C11.persist] res1 == nil ==> $persist
 //@   ensures  [T] Tjobs()
 //@   ensures  [defs] r.defs == old(r.defs)
-//@   at call (*PipelineRunner).startJob#1: assert [distNew] all(old(r.jobsByPipeline[pipeline]), neq, job)
-//@   at call (*PipelineRunner).startJob#1: assert [distOld] distinctElems(old(r.jobsByPipeline[pipeline]))
-//@   at call (*PipelineRunner).startJob#1: assert [distInit] distinctElems(r.jobsByPipeline[pipeline][:len(r.jobsByPipeline[pipeline])-1])
-//@   at call (*PipelineRunner).startJob#1: assert [distList] distinctElems(r.jobsByPipeline[pipeline])
-//@   at call (*PipelineRunner).startJob#1: assert [distAll] RIdist(r)
+//@   at after mapupdate#2: assert [distNew] all(old(r.jobsByPipeline[pipeline]), neq, job)
+//@   at after mapupdate#2: assert [distOld] distinctElems(old(r.jobsByPipeline[pipeline]))
+//@   at after mapupdate#2: assert [distInit] distinctElems(r.jobsByPipeline[pipeline][:len(r.jobsByPipeline[pipeline])-1])
+//@   at after mapupdate#2: assert [distList] distinctElems(r.jobsByPipeline[pipeline])
+//@   at after mapupdate#2: assert [distAll] RIdist(r)
+//@   at after mapupdate#3: assert [wlNew] wlEntry(job, pipeline) && all(old(r.waitListByPipeline[pipeline]), neq, job)
+//@   at after mapupdate#3: assert [wlOld] all(old(r.waitListByPipeline[pipeline]), wlEntry, pipeline) && distinctElems(old(r.waitListByPipeline[pipeline]))
+//@   at after mapupdate#3: assert [wlInit] all(r.waitListByPipeline[pipeline][:len(r.waitListByPipeline[pipeline])-1], wlEntry, pipeline) && distinctElems(r.waitListByPipeline[pipeline][:len(r.waitListByPipeline[pipeline])-1])
+//@   at after mapupdate#3: assert [wlList] all(r.waitListByPipeline[pipeline], wlEntry, pipeline) && distinctElems(r.waitListByPipeline[pipeline])
+//@   at after mapupdate#3: assert [wlAll] RIwl(r)
+//@   at after mapupdate#2: assert [distReg] RIreg(r) && RIjobs(r) && RIwf(r) && RIsep(r)
 //@   at call (*PipelineRunner).startJob#1: assert [cntPrefix] cnt(r.jobsByPipeline[pipeline][:len(r.jobsByPipeline[pipeline])-1], jobRunning) == old(running(r, pipeline))
 //@   at call (*PipelineRunner).startJob#1: assert [cntLast] running(r, pipeline) == cnt(r.jobsByPipeline[pipeline][:len(r.jobsByPipeline[pipeline])-1], jobRunning)
 
@@ -401,13 +408,16 @@ package prunner
 
 //@ pure infoDefined(e *PipelineInfo, r *PipelineRunner) bool = (e.Pipeline in r.defs.Pipelines)
 //@ pure infoSched(e *PipelineInfo, r *PipelineRunner) bool = (e.Schedulable <==> (admit(r, e.Pipeline, false) != scheduleActionNoQueue && admit(r, e.Pipeline, false) != scheduleActionQueueFull))
-//@ pure infoRunning(e *PipelineInfo, r *PipelineRunner) bool = (e.Running <==> exists k :: 0 <= k && k < len(r.jobsByPipeline[e.Pipeline]) && jobRunning(r.jobsByPipeline[e.Pipeline][k]))
+//@ opaque pipeRunning(r *PipelineRunner, p string) bool = exists k :: 0 <= k && k < len(r.jobsByPipeline[p]) && jobRunning(r.jobsByPipeline[p][k])
+//@ pure infoRunning(e *PipelineInfo, r *PipelineRunner) bool = (e.Running <==> pipeRunning(r, e.Pipeline))
 //@ func (*PipelineRunner).ListPipelines
 //@   safety
 //@   lockmode none
 //@   ensures  [readonly] same("map(map[string][]*PipelineJob)") && same("map(map[uuid.UUID]*PipelineJob)") && same(PipelineJob.Start) && same(PipelineJob.Canceled) && same(PipelineJob.Completed) && r.defs == old(r.defs)
 //@   ensures  [C15.list] len(res) == len(r.defs.Pipelines) && all(res, infoDefined, r) && all(res, infoSched, r)
+//@   ensures  [C15.listRunning] all(res, infoRunning, r)
 //@   loop 1 invariant [ri] RI(r) && r.defs == old(r.defs) && same("map(map[string][]*PipelineJob)") && same("map(map[uuid.UUID]*PipelineJob)") && same(PipelineJob.Start) && same(PipelineJob.Canceled) && same(PipelineJob.Completed) && same("mem(*PipelineJob)") && same("map(definition.PipelinesMap)") && same("mem(int)")
+//@   loop 1 invariant [C15.listRunning] all(res, infoRunning, r)
 //@   loop 1 invariant [C15.list] wf(res) && fresh(base(res)) && all(res, infoDefined, r) && all(res, infoSched, r) && len(res) == card($seen) && forall k string :: $seen[k] ==> (k in r.defs.Pipelines)
 
 //@ func (pipelineJobBy).Sort
@@ -535,6 +545,8 @@ package prunner
 //@   ensures  [C10.terminal] res == nil ==> forall p string :: all(r.jobsByPipeline[p], terminalJob)
 //@   ensures  [C10.noWaitLists] forall p string :: !(p in r.waitListByPipeline)
 //@   ensures  [C10.ids] res == nil ==> forall id uuid.UUID :: (id in r.jobsByID) ==> terminalJob(r.jobsByID[id])
+//@   ensures  [C10.noGhostCapacity] res == nil ==> forall p string :: useCntZero(r.jobsByPipeline[p]) ==> running(r, p) == 0 && len(r.waitListByPipeline[p]) == 0 && !pipeRunning(r, p)
+//@   ensures  [C10.schedulable] res == nil ==> forall p string :: conc(r, p) >= 1 && r.defs.Pipelines[p].StartDelay <= 0 && useCntZero(r.jobsByPipeline[p]) ==> admit(r, p, false) == scheduleActionStart
 //@   ensures  [unpublished] !$pub[r] && !$pub[r.jobsByID] && !$pub[r.jobsByPipeline]
 //@   loop 1 invariant [maps] r.jobsByID == old(r.jobsByID) && r.jobsByPipeline == old(r.jobsByPipeline) && r.waitListByPipeline == old(r.waitListByPipeline) && !$pub[r] && !$pub[r.jobsByID] && !$pub[r.jobsByPipeline] && r.jobsByPipeline != nil && r.jobsByID != nil && r.jobsByPipeline != r.waitListByPipeline
 //@   loop 1 invariant [lists] (forall p string :: freshOrNil(r.jobsByPipeline[p]) && wf(r.jobsByPipeline[p]) && all(r.jobsByPipeline[p], terminalJob)) && (forall p string :: !(p in r.waitListByPipeline)) && (forall id uuid.UUID :: (id in r.jobsByID) ==> terminalJob(r.jobsByID[id]))
@@ -573,12 +585,12 @@ package prunner
 //@ property C01: prunner.(*PipelineJob).isRunning/ensures* prunner.(*PipelineRunner).runningJobsCount/ensures* prunner.(*PipelineRunner).runningJobsCount/loop* prunner.*/ensures[C01.*] prunner.*/call-pre[(*PipelineRunner).startJob.slotFree]* prunner.*/call-pre[(*PipelineRunner).startJob.notStarted]* prunner.*/call-pre[(*PipelineRunner).startJob.offList]* prunner.*/ensures[T] prunner.*/loop*/inv-*[T] prunner.*/monitor[RI] prunner.*/ensures[ri] prunner.*/call-pre[*.ri]* prunner.*/loop*/inv-*[ri] prunner.*/assert[C01.*] prunner.*/assert[cnt*] lemma/cntFrame* prunner/writers[PipelineJob.Start] prunner/writers[PipelineJob.Completed] prunner/writers[PipelineJob.Canceled] prunner.*/call-pre[(*PipelineRunner).startJob$1.token]* prunner.(*PipelineRunner).startJobsOnWaitList/* prunner.(*PipelineRunner).startJob/* prunner.(*PipelineRunner).cancelJobInternal/* prunner.removeJobFromWaitList/* prunner.*/safety prunner.*/guarantee[T]
 //@ property C03: prunner.*/ensures[C03.*] prunner.*/monitor[RI] prunner.*/ensures[ri] prunner.*/call-pre[*.ri]* prunner.*/loop*/inv-*[ri] prunner.(*PipelineRunner).startJobsOnWaitList/loop* prunner.(*PipelineRunner).startJob/ensures[skipCanceled] prunner.removeJobFromWaitList/* prunner.*/ensures[C05.offList] prunner.*/ensures[C16.defsOnly] prunner.(*PipelineRunner).startJobsOnWaitList/* prunner.(*PipelineRunner).startJob/* prunner.(*PipelineRunner).cancelJobInternal/* prunner.removeJobFromWaitList/* prunner.*/ensures[C12.keepLive] prunner.(*PipelineRunner).SaveToStore/loop* prunner.*/safety
 //@ property C04: prunner.*/assert[C04.*] prunner.*/ensures[C04.*] prunner.(*PipelineRunner).startJob/ensures[skipCanceled] prunner.*/ensures[T] prunner.(*PipelineJob).markAsCanceled/* prunner.*/call-pre[(*PipelineRunner).startJob.*]* prunner/writers[PipelineJob.Canceled] prunner.*/monitor[RI] prunner.*/guarantee[T]
-//@ property C05: prunner.*/ensures[C05.*] prunner.*/monitor[RI] prunner.*/ensures[ri] prunner.*/call-pre[*.ri]* prunner.*/loop*/inv-*[ri] prunner.removeJobFromWaitList/* prunner.(*PipelineRunner).runningJobsCount/* prunner.*/ensures[C15.reject] prunner.*/ensures[C15.accept] lemma/cntFrame* prunner.*/loop*/inv-*[others] prunner.*/loop*/inv-*[mine] prunner.*/loop*/inv-*[purged] prunner.(*PipelineRunner).startJobsOnWaitList/* prunner.(*PipelineRunner).startJob/* prunner.(*PipelineRunner).cancelJobInternal/* prunner.removeJobFromWaitList/* prunner.*/safety
+//@ property C05: prunner.*/ensures[C05.*] prunner.*/monitor[RI] prunner.*/ensures[ri] prunner.*/call-pre[*.ri]* prunner.*/loop*/inv-*[ri] prunner.removeJobFromWaitList/* prunner.(*PipelineRunner).runningJobsCount/* prunner.*/ensures[C15.reject] prunner.*/ensures[C15.accept] lemma/cntFrame* prunner.*/loop*/inv-*[others] prunner.*/loop*/inv-*[mine] prunner.*/loop*/inv-*[purged] prunner.(*PipelineRunner).startJobsOnWaitList/* prunner.(*PipelineRunner).startJob/* prunner.(*PipelineRunner).cancelJobInternal/* prunner.removeJobFromWaitList/* prunner.*/safety prunner.*/assert[wl*] prunner.*/assert[dist*]
 //@ property C06: prunner.*/ensures[C06.*] prunner.(*PipelineRunner).ScheduleAsync/ensures[C05.queue] prunner.(*PipelineRunner).ScheduleAsync/ensures[C05.replace] prunner.(*PipelineRunner).ScheduleAsync/ensures[C05.start] prunner.(*PipelineRunner).startJobsOnWaitList/loop* prunner.*/call-pre[(*PipelineRunner).startJob.offList]* prunner.removeJobFromWaitList/* prunner.*/monitor[RI] prunner.*/ensures[C12.waitLists] prunner.(*PipelineRunner).startJobsOnWaitList/* prunner.(*PipelineRunner).startJob/* prunner.(*PipelineRunner).cancelJobInternal/* prunner.removeJobFromWaitList/* prunner.*/ensures[T] prunner.*/ensures[ri] prunner.*/call-pre[*.ri]*
 //@ property C07: prunner.*/ensures[C07.*] prunner.*/call-pre[(*PipelineRunner).startJob.timerDone]* prunner.*/ensures[C03.timerTruth] prunner.*/ensures[C03.progress] prunner.(*PipelineRunner).ScheduleAsync/ensures[C05.replace] prunner.(*PipelineRunner).startJob/ensures[skipCanceled] prunner.(*PipelineRunner).resolveDequeueJobAction/ensures* prunner/writers[PipelineJob.startTimer] prunner/writers[PipelineJob.StartDelay]
-//@ property C10: prunner.*/ensures[C10.*] prunner.(*PipelineRunner).initialLoadFromStore/loop* prunner.buildJobFromPersistedJob/* helper.*/ensures* store/globalinit[json] store.(*JsonDataStore).Load/ensures[C09.load] prunner.*/assert[C10.*] prunner.(*PipelineJob).isRunning/ensures* prunner.(*PipelineRunner).SaveToStore/loop3/* prunner.(*PipelineRunner).SaveToStore/loop4/*
+//@ property C10: prunner.*/ensures[C10.*] prunner.(*PipelineRunner).initialLoadFromStore/loop* prunner.buildJobFromPersistedJob/* helper.*/ensures* store/globalinit[json] store.(*JsonDataStore).Load/ensures[C09.load] prunner.*/assert[C10.*] prunner.(*PipelineJob).isRunning/ensures* prunner.(*PipelineRunner).SaveToStore/loop3/* prunner.(*PipelineRunner).SaveToStore/loop4/* lemma/cntZero* prunner.(*PipelineRunner).initialLoadFromStore/ensures*
 //@ property C11: prunner.*/ensures[C11.*] prunner.*/assert[C11.*] prunner.(*PipelineRunner).Shutdown/loop* prunner.(*PipelineRunner).Shutdown/monitor[RI] prunner.(*PipelineRunner).Shutdown/ensures[T] prunner.(*PipelineRunner).Shutdown$1/* prunner/writers[PipelineRunner.isShuttingDown] prunner.*/guarantee[gate] prunner.(*PipelineRunner).Shutdown/guarantee[T] prunner/interference[captured]
-//@ property C12: prunner.*/ensures[C12.*] prunner.(*PipelineRunner).SaveToStore/* prunner.removeJobFromList/* prunner.byCreationTimeDesc/ensures* prunner.*/assert[dist*] prunner.*/monitor[RI] prunner.(*PipelineRunner).determineIfJobShouldBeRemoved/*
+//@ property C12: prunner.*/ensures[C12.*] prunner.(*PipelineRunner).SaveToStore/* prunner.removeJobFromList/* prunner.byCreationTimeDesc/ensures* prunner.*/assert[dist*] prunner.*/monitor[RI] prunner.(*PipelineRunner).determineIfJobShouldBeRemoved/* prunner.*/assert[wl*]
 //@ property C13: prunner.*/lock[read] prunner.*/lock[write] prunner.*/lockproto[*] prunner.*/call-pre[*.lockmode]* prunner.*/call-pre[*.guard]* prunner.*/call-pre[*.empty]* prunner.*/ensures[unpublished] prunner/interference[captured] prunner.*/guarantee[*]
 //@ property C15: prunner.*/ensures[C15.*] prunner.(*PipelineRunner).resolveScheduleAction/ensures[range] prunner.(*PipelineRunner).isRunning/loop* prunner.(*PipelineRunner).ReadJob/* prunner.(*PipelineRunner).IterateJobs/ensures* prunner.(*PipelineRunner).ListPipelines/ensures* prunner.(*PipelineRunner).ListPipelines/loop* prunner.(*PipelineJob).isRunning/ensures*
 //@ property C08: prunner.*/assert[C08.*] prunner.(*PipelineRunner).JobCompleted/ensures[C04.verdict] prunner.*/assert[C04.cancelMeansError] prunner.(jobTasks).ByName/*
